@@ -9,7 +9,7 @@ from ..lang import CMP_OPS
 PROPERTY = "C13"
 LEVEL = "exploration"
 TIMEOUT = 300
-BUDGET = {"quick": 170, "thorough": 1500}
+BUDGET = {"quick": 600, "thorough": 3600}
 REQUIRED_MONITORS = ["allocations"]
 RULE = ("[strata added in the build: bundle literals whose members sit at the head of the allocation pool next to "
         "untyped values; untyped values whose variable name is a game signal name] "
